@@ -36,7 +36,7 @@ def formats(draw, order, sparse_bias=0.5):
 
 @st.composite
 def expr_trees(draw, max_leaves=5, orders=None, literal_rate=15, big_literals=False, ops="+-**",
-               order_choices=(0, 1, 1, 2, 2, 2, 3)):
+               order_choices=(0, 1, 1, 2, 2, 2, 3), constant_pairs=False):
     """Random binary tree over tensor/literal leaves.  ``orders`` (dict) is filled with tensor orders."""
     n = draw(st.integers(1, max_leaves))
     leaves = []
@@ -56,7 +56,7 @@ def expr_trees(draw, max_leaves=5, orders=None, literal_rate=15, big_literals=Fa
             k = orders[name]
             idxs = list(draw(st.permutations(IDX)))[:k]
             leaves.append(["t", name, idxs])
-    if big_literals and draw(st.integers(0, 7)) == 0:
+    if constant_pairs and draw(st.integers(0, 7)) == 0:
         # two literals as direct siblings of one operator (a constant sub-expression), with magnitudes whose product or
         # sum leaves the double range or the int32 range
         a, b = (draw(st.sampled_from([["f", "1e200"], ["f", "1e308"], ["f", "1.7976931348623157e308"], ["f", "1e-200"],
